@@ -1,4 +1,608 @@
 package main
 
-func checkMain(args []string) int  { return 2 }
-func replayMain(args []string) int { return 2 }
+import (
+	"bufio"
+	"crypto/sha256"
+	"encoding/json"
+	"flag"
+	"fmt"
+	"os"
+	"os/exec"
+	"path/filepath"
+	"sort"
+	"strconv"
+	"strings"
+	"time"
+
+	"verif/engine/sym"
+)
+
+const (
+	verifDir = "/verif"
+	repoDir  = "/repo"
+)
+
+// TierOpt: options of one harness run in one tier.
+type TierOpt struct {
+	Params   map[string]int // harness parameters (vParam)
+	Sched    int
+	Race     bool
+	MaxPaths int
+	MaxSteps int
+	Horizon  int64
+	Timeout  int // solver timeout ms
+}
+
+// Run describes one harness of a property.
+type Run struct {
+	Pkg      string
+	Harness  string
+	Inits    []string
+	Quick    *TierOpt
+	Thorough *TierOpt
+	// MustReach: vReach labels that must be reached (vacuity guard)
+	MustReach []string
+	What      string // one-line description for the evidence
+	Synctest  bool   // native replay needs testing/synctest
+	NoReplay  bool   // harness uses model-only stubs: replay through scenario twin
+	Twin      string // native twin test for scenario replay
+}
+
+type Prop struct {
+	ID          string
+	Runs        []Run
+	Functions   []string
+	Assumptions []string
+	Bounds      []string
+	Outside     []string
+}
+
+func loadKnown() ([]sym.KnownFinding, []string) {
+	var ks []sym.KnownFinding
+	var fixed []string
+	f, err := os.Open(filepath.Join(verifDir, "known_findings.txt"))
+	if err != nil {
+		return nil, nil
+	}
+	defer f.Close()
+	sc := bufio.NewScanner(f)
+	for sc.Scan() {
+		line := strings.TrimSpace(sc.Text())
+		if strings.HasPrefix(line, "fixed:") {
+			fixed = append(fixed, line)
+			continue
+		}
+		if !strings.HasPrefix(line, "known:") {
+			continue
+		}
+		// known: property=C04 harness=VH_x msg="..." when=a=1,b=2 :: free text
+		k := sym.KnownFinding{Pred: map[string]uint64{}}
+		rest := strings.TrimSpace(strings.TrimPrefix(line, "known:"))
+		text := rest
+		if i := strings.Index(rest, "::"); i >= 0 {
+			text = strings.TrimSpace(rest[i+2:])
+			rest = rest[:i]
+		}
+		for _, f := range splitFields(rest) {
+			kv := strings.SplitN(f, "=", 2)
+			if len(kv) != 2 {
+				continue
+			}
+			switch kv[0] {
+			case "property":
+				k.Property = kv[1]
+			case "harness":
+				k.Harness = kv[1]
+			case "msg":
+				k.Msg = strings.Trim(kv[1], "\"")
+			case "when":
+				for _, c := range strings.Split(kv[1], ",") {
+					nv := strings.SplitN(c, ":", 2)
+					if len(nv) == 2 {
+						v, _ := strconv.ParseUint(nv[1], 10, 64)
+						k.Pred[nv[0]] = v
+					}
+				}
+			}
+		}
+		k.Text = text
+		ks = append(ks, k)
+	}
+	return ks, fixed
+}
+
+// splitFields splits on spaces outside double quotes.
+func splitFields(s string) []string {
+	var out []string
+	var cur strings.Builder
+	inq := false
+	for _, r := range s {
+		switch {
+		case r == '"':
+			inq = !inq
+			cur.WriteRune(r)
+		case r == ' ' && !inq:
+			if cur.Len() > 0 {
+				out = append(out, cur.String())
+				cur.Reset()
+			}
+		default:
+			cur.WriteRune(r)
+		}
+	}
+	if cur.Len() > 0 {
+		out = append(out, cur.String())
+	}
+	return out
+}
+
+type runOutcome struct {
+	Run    Run
+	Opt    *TierOpt
+	Res    *sym.HarnessResult
+	Cross  map[string]string // solver -> summary (thorough)
+	Replay []replayOutcome
+}
+
+type replayOutcome struct {
+	V          *sym.Violation
+	Reproduced bool
+	Output     string
+	Path       string
+}
+
+func checkMain(args []string) int {
+	fs := flag.NewFlagSet("check", flag.ExitOnError)
+	tier := fs.String("tier", "", "quick|thorough")
+	workers := fs.Int("workers", 16, "parallel workers")
+	only := fs.String("only", "", "run only this harness")
+	noReplay := fs.Bool("noreplay", false, "skip native replay (development)")
+	fs.Parse(reorder(args))
+	if fs.NArg() < 1 {
+		fmt.Fprintln(os.Stderr, "usage: gosym check <property> --tier quick|thorough")
+		return 2
+	}
+	id := fs.Arg(0)
+	if *tier == "" {
+		*tier = os.Getenv("VERIF_TIER")
+	}
+	if *tier == "" {
+		*tier = "quick"
+	}
+	seed := 0
+	if s := os.Getenv("VERIF_SEED"); s != "" {
+		seed, _ = strconv.Atoi(s)
+	}
+	prop, ok := props[id]
+	if !ok {
+		fmt.Fprintln(os.Stderr, "unknown property", id)
+		return 2
+	}
+	start := time.Now()
+	known, fixed := loadKnown()
+	_ = fixed
+	progs := map[string]*sym.Program{}
+	var outcomes []*runOutcome
+	engineErrors := []string{}
+	for _, r := range prop.Runs {
+		if *only != "" && r.Harness != *only {
+			continue
+		}
+		opt := r.Quick
+		if *tier == "thorough" {
+			opt = r.Thorough
+			if opt == nil {
+				opt = r.Quick
+			}
+		}
+		if opt == nil {
+			continue
+		}
+		key := r.Pkg + "|" + strings.Join(r.Inits, ",")
+		p, ok := progs[key]
+		if !ok {
+			var err error
+			p, err = sym.Load(sym.LoadConfig{RepoDir: filepath.Join(repoDir, r.Pkg), HarnessDir: filepath.Join(verifDir, "harness", r.Pkg),
+				Tags: []string{"verif"}, InitPkgs: append(defaultInits(r.Pkg), r.Inits...)})
+			if err != nil {
+				fmt.Fprintf(os.Stderr, "ENGINE-ERROR load %s: %v\n", r.Pkg, err)
+				return 2
+			}
+			progs[key] = p
+		}
+		fn := p.Harness(r.Harness)
+		if fn == nil {
+			engineErrors = append(engineErrors, "harness not found: "+r.Harness)
+			continue
+		}
+		o := sym.DefaultOptions()
+		o.Workers = *workers
+		o.SchedBudget = opt.Sched
+		o.RaceMode = opt.Race
+		o.Known = known
+		o.Params = opt.Params
+		if opt.MaxPaths > 0 {
+			o.MaxPaths = opt.MaxPaths
+		}
+		if opt.MaxSteps > 0 {
+			o.MaxSteps = opt.MaxSteps
+		}
+		if opt.Horizon > 0 {
+			o.Horizon = opt.Horizon
+		}
+		if opt.Timeout > 0 {
+			o.TimeoutMs = opt.Timeout
+		} else if *tier == "thorough" {
+			o.TimeoutMs = 60000
+		}
+		hr := sym.Explore(p, fn, o)
+		oc := &runOutcome{Run: r, Opt: opt, Res: hr, Cross: map[string]string{}}
+		outcomes = append(outcomes, oc)
+		fmt.Printf("[%s] %s: paths=%d queries=%d solver=%v wall=%v violations=%d inconclusive=%d unsupported=%d\n", id, r.Harness, hr.Paths, hr.Queries,
+			hr.SolverTime.Round(time.Millisecond), hr.Wall.Round(time.Millisecond), len(hr.Violations), len(hr.Inconcl), len(hr.Unsupported))
+		// vacuity guards
+		for _, l := range r.MustReach {
+			if !hr.Reached[l] {
+				engineErrors = append(engineErrors, fmt.Sprintf("%s: vacuity: label %q not reached", r.Harness, l))
+			}
+		}
+		if hr.Ends["returned"] == 0 && len(hr.Violations) == 0 {
+			engineErrors = append(engineErrors, fmt.Sprintf("%s: vacuity: no path ran to completion (%v)", r.Harness, hr.Ends))
+		}
+		for _, u := range hr.Unsupported {
+			engineErrors = append(engineErrors, r.Harness+": unsupported: "+firstLine(u))
+		}
+		for _, u := range hr.Inconcl {
+			engineErrors = append(engineErrors, r.Harness+": inconclusive: "+u)
+		}
+		if hr.Truncated {
+			engineErrors = append(engineErrors, r.Harness+": path budget exhausted (bound not covered)")
+		}
+		// thorough: diff the verdicts of a second and third solver
+		if *tier == "thorough" && !opt.Race && opt.Sched == 0 {
+			for _, sv := range []string{"z3-new", "cvc5"} {
+				o2 := o
+				o2.SolverName = sv
+				h2 := sym.Explore(p, fn, o2)
+				sum := fmt.Sprintf("paths=%d violations=%s inconclusive=%d", h2.Paths, violKey(h2.Violations), len(h2.Inconcl))
+				oc.Cross[sv] = sum
+				if violKey(h2.Violations) != violKey(hr.Violations) && len(h2.Inconcl) == 0 && len(h2.Unsupported) == 0 {
+					engineErrors = append(engineErrors, fmt.Sprintf("%s: solver disagreement z3 vs %s: %s vs %s", r.Harness, sv, violKey(hr.Violations), violKey(h2.Violations)))
+				}
+			}
+		}
+	}
+	// classify violations
+	exit := 0
+	var lines []string
+	violCount := 0
+	knownSeen := map[string]bool{}
+	for _, oc := range outcomes {
+		seenMsg := map[string]bool{}
+		for _, v := range oc.Res.Violations {
+			if v.Known != "" {
+				k := fmt.Sprintf("KNOWN-FINDING: property=%s %s", id, v.Known)
+				if !knownSeen[k] {
+					knownSeen[k] = true
+					lines = append(lines, k)
+				}
+				continue
+			}
+			key := v.Kind + "|" + v.Msg + "|" + v.Where
+			if seenMsg[key] {
+				continue
+			}
+			seenMsg[key] = true
+			path := writeReplay(id, oc.Run, v)
+			ro := replayOutcome{V: v, Path: path}
+			if *noReplay {
+				ro.Reproduced = true
+			} else {
+				ro.Reproduced, ro.Output = nativeReplay(oc.Run, path, progs[oc.Run.Pkg+"|"+strings.Join(oc.Run.Inits, ",")])
+			}
+			oc.Replay = append(oc.Replay, ro)
+			if ro.Reproduced {
+				violCount++
+				lines = append(lines, fmt.Sprintf("VIOLATION property=%s replay=%s", id, path))
+				fmt.Printf("  violation: %s: %s @ %s (harness %s)\n", v.Kind, v.Msg, v.Where, v.Harness)
+				exit = 1
+			} else {
+				engineErrors = append(engineErrors, fmt.Sprintf("ENGINE-MISMATCH %s: counterexample for '%s' did not reproduce natively (replay %s): %s", oc.Run.Harness, v.Msg, path, lastLines(ro.Output, 6)))
+			}
+		}
+	}
+	wall := time.Since(start).Seconds()
+	writeEvidence(id, *tier, seed, prop, outcomes, violCount, wall, engineErrors, lines)
+	for _, l := range lines {
+		fmt.Println(l)
+	}
+	if len(engineErrors) > 0 {
+		for _, e := range engineErrors {
+			fmt.Println("INCONCLUSIVE:", e)
+		}
+		if exit == 0 {
+			return 2
+		}
+	}
+	if exit == 0 {
+		fmt.Printf("OK property=%s tier=%s harnesses=%d wall=%.1fs\n", id, *tier, len(outcomes), wall)
+	}
+	return exit
+}
+
+// reorder moves flags before positional arguments so that
+// "check C07 --tier quick" parses.
+func reorder(args []string) []string {
+	var flags, pos []string
+	for i := 0; i < len(args); i++ {
+		a := args[i]
+		if strings.HasPrefix(a, "-") {
+			flags = append(flags, a)
+			if !strings.Contains(a, "=") && i+1 < len(args) && !strings.HasPrefix(args[i+1], "-") && a != "--noreplay" && a != "-noreplay" {
+				flags = append(flags, args[i+1])
+				i++
+			}
+		} else {
+			pos = append(pos, a)
+		}
+	}
+	return append(flags, pos...)
+}
+
+func firstLine(s string) string {
+	if i := strings.Index(s, "\n"); i >= 0 {
+		return s[:i]
+	}
+	return s
+}
+
+func lastLines(s string, n int) string {
+	ls := strings.Split(strings.TrimSpace(s), "\n")
+	if len(ls) > n {
+		ls = ls[len(ls)-n:]
+	}
+	return strings.Join(ls, " | ")
+}
+
+func violKey(vs []*sym.Violation) string {
+	set := map[string]bool{}
+	for _, v := range vs {
+		set[v.Kind+":"+v.Msg] = true
+	}
+	var ks []string
+	for k := range set {
+		ks = append(ks, k)
+	}
+	sort.Strings(ks)
+	return "[" + strings.Join(ks, "; ") + "]"
+}
+
+func writeReplay(id string, r Run, v *sym.Violation) string {
+	os.MkdirAll(filepath.Join(verifDir, "replays"), 0o755)
+	doc := map[string]interface{}{
+		"property": id, "pkg": r.Pkg, "harness": r.Harness, "kind": v.Kind, "msg": v.Msg, "where": v.Where,
+		"model": v.Model, "trail": v.Trail, "synctest": r.Synctest, "twin": r.Twin,
+	}
+	b, _ := json.MarshalIndent(doc, "", " ")
+	h := sha256.Sum256(b)
+	path := filepath.Join(verifDir, "replays", fmt.Sprintf("%s-%x.json", id, h[:6]))
+	os.WriteFile(path, b, 0o644)
+	return path
+}
+
+// nativeReplay compiles the harness into the real package (go test -overlay)
+// and runs it on the model. Reproduced = the native run panics or records a
+// failed vAssert.
+func nativeReplay(r Run, replayPath string, p *sym.Program) (bool, string) {
+	tmp, err := os.MkdirTemp(filepath.Join(verifDir, "replays"), "tmp-")
+	if err != nil {
+		return false, err.Error()
+	}
+	defer os.RemoveAll(tmp)
+	ov := map[string]string{}
+	files, _ := filepath.Glob(filepath.Join(verifDir, "harness", r.Pkg, "*.go"))
+	for _, f := range files {
+		base := filepath.Base(f)
+		if strings.HasSuffix(base, "_test.go") {
+			ov[filepath.Join(repoDir, r.Pkg, "zz_verif_"+base)] = f
+		} else {
+			ov[filepath.Join(repoDir, r.Pkg, "zz_verif_"+base)] = f
+		}
+	}
+	// generated test driver
+	var sb strings.Builder
+	pkgName := filepath.Base(r.Pkg)
+	sb.WriteString("//go:build verif\n\npackage " + pkgName + "\n\nimport (\n\t\"fmt\"\n\t\"os\"\n\t\"testing\"\n")
+	if r.Synctest {
+		sb.WriteString("\t\"testing/synctest\"\n")
+	}
+	sb.WriteString(")\n\nvar vHarnessTable = map[string]func(){\n")
+	names := p.Harnesses("VH_")
+	sort.Strings(names)
+	for _, n := range names {
+		fmt.Fprintf(&sb, "\t%q: %s,\n", n, n)
+	}
+	sb.WriteString("}\n\nfunc TestVerifReplay(t *testing.T) {\n\th := vHarnessTable[os.Getenv(\"VERIF_HARNESS\")]\n\tif h == nil {\n\t\tt.Fatal(\"no harness\")\n\t}\n")
+	body := `	run := func() {
+		defer func() {
+			if r := recover(); r != nil {
+				if _, ok := r.(vAssumeFailed); ok {
+					fmt.Println("REPLAY-ASSUME-FAILED")
+					return
+				}
+				fmt.Printf("REPLAY-PANIC: %v\n", r)
+				t.Fail()
+			}
+		}()
+		h()
+	}
+`
+	sb.WriteString(body)
+	if r.Synctest {
+		sb.WriteString("\tsynctest.Run(run)\n")
+	} else {
+		sb.WriteString("\trun()\n")
+	}
+	sb.WriteString("\tfor _, f := range vFailures {\n\t\tfmt.Printf(\"REPLAY-FAIL: %s\\n\", f)\n\t\tt.Fail()\n\t}\n}\n")
+	drv := filepath.Join(tmp, "replay_test.go")
+	os.WriteFile(drv, []byte(sb.String()), 0o644)
+	ov[filepath.Join(repoDir, r.Pkg, "zz_verif_replay_test.go")] = drv
+	ovb, _ := json.Marshal(map[string]interface{}{"Replace": ov})
+	ovPath := filepath.Join(tmp, "overlay.json")
+	os.WriteFile(ovPath, ovb, 0o644)
+	cmd := exec.Command("go", "test", "-tags", "verif", "-vet=off", "-count=1", "-timeout", "300s", "-run", "^TestVerifReplay$", "-overlay", ovPath, "-v", ".")
+	cmd.Dir = filepath.Join(repoDir, r.Pkg)
+	cmd.Env = append(os.Environ(), "GOFLAGS=-mod=mod", "GOPROXY=off", "VERIF_MODEL="+replayPath, "VERIF_HARNESS="+r.Harness)
+	if r.Synctest {
+		cmd.Env = append(cmd.Env, "GOEXPERIMENT=synctest")
+	}
+	out, _ := cmd.CombinedOutput()
+	s := string(out)
+	rep := strings.Contains(s, "REPLAY-PANIC") || strings.Contains(s, "REPLAY-FAIL") || strings.Contains(s, "panic:") || strings.Contains(s, "fatal error:")
+	return rep, s
+}
+
+func replayMain(args []string) int {
+	if len(args) < 1 {
+		fmt.Fprintln(os.Stderr, "usage: gosym replay <path>")
+		return 2
+	}
+	b, err := os.ReadFile(args[0])
+	if err != nil {
+		fmt.Fprintln(os.Stderr, err)
+		return 2
+	}
+	var doc struct {
+		Property, Pkg, Harness string
+		Synctest               bool
+	}
+	json.Unmarshal(b, &doc)
+	p, err := sym.Load(sym.LoadConfig{RepoDir: filepath.Join(repoDir, doc.Pkg), HarnessDir: filepath.Join(verifDir, "harness", doc.Pkg), Tags: []string{"verif"}})
+	if err != nil {
+		fmt.Fprintln(os.Stderr, err)
+		return 2
+	}
+	ok, out := nativeReplay(Run{Pkg: doc.Pkg, Harness: doc.Harness, Synctest: doc.Synctest}, args[0], p)
+	fmt.Println(out)
+	if ok {
+		fmt.Printf("VIOLATION property=%s replay=%s\n", doc.Property, args[0])
+		return 1
+	}
+	fmt.Println("replay did not reproduce a violation")
+	return 0
+}
+
+// ---------------------------------------------------------------------------
+// evidence
+
+func writeEvidence(id, tier string, seed int, prop *Prop, outcomes []*runOutcome, violations int, wall float64, engineErrors, lines []string) {
+	paths, queries, steps := 0, 0, 0
+	var solver time.Duration
+	replays := 0
+	var samples []interface{}
+	fnSet := map[string]bool{}
+	var obligations, discharged int
+	var perHarness []interface{}
+	lemmas := map[string]int{}
+	for _, oc := range outcomes {
+		hr := oc.Res
+		paths += hr.Paths
+		queries += hr.Queries
+		steps += hr.Steps
+		solver += hr.SolverTime
+		obligations++
+		if len(hr.Violations) == 0 && len(hr.Inconcl) == 0 && len(hr.Unsupported) == 0 && !hr.Truncated {
+			discharged++
+		}
+		for f := range hr.FnSeen {
+			if strings.Contains(f, "lightning-node-connect") && !strings.Contains(f, ".VH_") && !strings.Contains(f, ".v") {
+				fnSet[f] = true
+			}
+		}
+		for k, v := range hr.Lemmas {
+			lemmas[k] += v
+		}
+		for _, ro := range oc.Replay {
+			if ro.Reproduced {
+				replays++
+			}
+		}
+		var reached []string
+		for l := range hr.Reached {
+			if !strings.HasPrefix(l, "assert:") {
+				reached = append(reached, l)
+			}
+		}
+		sort.Strings(reached)
+		var asserts []string
+		for l := range hr.Reached {
+			if strings.HasPrefix(l, "assert:") {
+				asserts = append(asserts, strings.TrimPrefix(l, "assert:"))
+			}
+		}
+		sort.Strings(asserts)
+		h := map[string]interface{}{
+			"harness": oc.Run.Harness, "pkg": oc.Run.Pkg, "what": oc.Run.What, "paths": hr.Paths, "solver_queries": hr.Queries,
+			"interpreted_instructions": hr.Steps, "solver_time_s": hr.SolverTime.Seconds(), "wall_s": hr.Wall.Seconds(),
+			"path_ends": hr.Ends, "labels_reached": reached, "assertions_checked": asserts, "params": oc.Opt.Params,
+			"sched_deviation_budget": oc.Opt.Sched, "race_mode": oc.Opt.Race, "violations": len(hr.Violations),
+			"max_goroutines": hr.MaxGoroutines, "timer_fires": hr.TimerFires,
+		}
+		if len(oc.Cross) > 0 {
+			h["cross_solver"] = oc.Cross
+		}
+		perHarness = append(perHarness, h)
+		if len(samples) < 6 {
+			s := map[string]interface{}{"harness": oc.Run.Harness, "bound": oc.Opt.Params, "sample_decision_vectors": hr.SamplePaths}
+			if len(hr.Violations) > 0 {
+				s["counterexample"] = hr.Violations[0].Model
+				s["counterexample_msg"] = hr.Violations[0].Msg
+			}
+			samples = append(samples, s)
+		}
+	}
+	var fns []string
+	for f := range fnSet {
+		fns = append(fns, f)
+	}
+	sort.Strings(fns)
+	if paths == 0 {
+		paths = 1
+	}
+	if queries == 0 {
+		queries = 1
+	}
+	if len(samples) == 0 {
+		samples = append(samples, "no harness ran")
+	}
+	ev := map[string]interface{}{
+		"property_id": id,
+		"tier":        tier,
+		"seed":        seed,
+		"level":       "model_checking",
+		"wall_s":      wall,
+		"violations":  violations,
+		"assumptions": append(append([]string{}, prop.Assumptions...), "bounds: "+strings.Join(prop.Bounds, "; "), "outside the claim: "+strings.Join(prop.Outside, "; ")),
+		"coverage": map[string]interface{}{
+			"states":                        paths,
+			"transitions":                   queries,
+			"traces_validated_against_impl": replays,
+			"samples":                       samples,
+			"obligations":                   obligations,
+			"discharged":                    discharged,
+			"functions_encoded":             fns,
+			"interpreted_instructions":      steps,
+			"solver_time_s":                 solver.Seconds(),
+			"solver":                        "z3 4.8.12 via one 'z3 -in' process per worker (push/pop); thorough tier re-runs every harness on z3-new 5.1.0 and cvc5 1.0 and diffs verdicts",
+			"harnesses":                     perHarness,
+			"lemmas_checked_concretely":     lemmas,
+			"engine_notes":                  engineErrors,
+			"result_lines":                  lines,
+			"explanation":                   "states = symbolic paths explored (each a class of concrete executions), transitions = SMT queries discharged; encoding regenerated from /repo's current source (go/packages+go/ssa) on this run",
+			"exhaustive":                    false,
+		},
+	}
+	b, _ := json.MarshalIndent(ev, "", " ")
+	os.MkdirAll(filepath.Join(verifDir, "evidence"), 0o755)
+	os.WriteFile(filepath.Join(verifDir, "evidence", id+".json"), b, 0o644)
+}
